@@ -37,6 +37,12 @@ claimed = {
   text="Decides structural clauses of the glyph-name statement in MakeGlyphNames, cff.makeNames, makeVariant and PostScriptName: (once) every store of a name into a slot after the used-set exists is control-dependent on an emptiness test of the same slot (existing unique names are kept); (used) every stored name comes from the variant helper or is stored under !used[name] and recorded on the same path, and (variant) the helper records every name it returns (pairwise distinct); (notdef) slot 0 is named .notdef before the used-set is built; (fallback) numbered placeholders fill remaining slots; (mapdet) no name is handed out in map-iteration order ('asking again returns the same names'); (psname) the returned PostScript name is directly ReplaceAllString(family+subfamily, "") with a character class whose complement, computed from the parsed literal, lies inside the PostScript-name alphabet. These hold for every font and every pattern of missing/duplicate names, which tests only sample. Level 'other'.",
   note="Trusted: go/types, go/ssa, regexp/syntax (used only to parse the literal; no library code is executed). Not covered: that inferred names are the right AGL names; installing names (EnsureGlyphNames) beyond determinism. A re-implementation of the sanitiser by other means than a regexp replacement is reported as undecided.",
   ref="DESIGN.md §3 E12, §4 C20"),
+ "C05": dict(
+  technique="specification-table agreement on the syntax tree and go/ssa: operator coverage, linear normal forms of operand decoders, bias/table pairing, ceil-division obligation via the linear prover, constant folding of the width predicate at the operand counts the specification allows, declaration-scope rule; plus the C02 safety rules on the interpreter",
+  engine="t2spec",
+  text="Decides structural conformance clauses of the Type 2 interpreter against TN5177 (tables encoded in the checker): (opcoverage) all 47 operators of Appendix A have a case; (numenc) the three integer operand encodings equal b0-139, (b0-247)*256+b1+108, -(b0-251)*256-b1-108 as linear forms of the SSA values, proven not to wrap; (subrbias) the INDEX that is indexed is the one whose length selects the bias 107/1131/32768 at thresholds 1240/33900; (maskbytes) the mask length k satisfies 8k >= nStems and 8k <= nStems+7 (prover, any equivalent formula is accepted); (widthrule) at each of the 10 operators that can come first, the predicate handed to the width setter agrees with the specification at every operand count a valid program can have; (storagescope) the transient array is declared outside the interpreter loops; (bounds/loopterm/loopwork) 265 index/slice sites and 13 loops of the interpreter are safe and terminate (step budget). Level 'other'.",
+  note="Trusted: go/types, go/ssa, the TN5177 tables as transcribed in c05.go, assumptions A1-A3. Not covered: the path semantics of each operator (which operands become which curve points, flex1's direction rule, hvcurveto's trailing operand, roll/index/ifelse arithmetic), stack-clearing behaviour, agreement with an independent interpreter on generated programs — value-level.",
+  ref="DESIGN.md §4 C05"),
  "C06": dict(
   technique="static aliasing / typestate / shape rules on the type-checked syntax and go/ssa of the shaping engine",
   engine="shaperules",
@@ -155,6 +161,7 @@ engines = [
  {"name": "parserrules", "path": "sfntlint/c17.go, sfntlint/narrow.go", "serves_properties": ["C17"], "kind_free_text": "who-may-write, atomic refill, seek-first, error/no-data rules for parser.Parser"},
  {"name": "dslagree", "path": "sfntlint/c19.go", "serves_properties": ["C19"], "kind_free_text": "parser/printer table agreement, goroutine and channel discipline, loop-shape rules (E11)"},
  {"name": "boundsprove", "path": "sfntlint/bounds.go, sfntlint/mem.go, sfntlint/intervals.go, sfntlint/boundsites.go, sfntlint/boundsrun.go, sfntlint/loopterm.go, sfntlint/allocbound.go, sfntlint/c02.go", "serves_properties": ["C02", "C05"], "kind_free_text": "linear integer prover over SSA with memory-load identification; bounds, invariants, preconditions, loop termination, allocation bounds (E1-E3)"},
+ {"name": "t2spec", "path": "sfntlint/c05.go", "serves_properties": ["C05"], "kind_free_text": "TN5177 table agreement for the Type 2 interpreter"},
  {"name": "cmaprules", "path": "sfntlint/c09.go", "serves_properties": ["C09"], "kind_free_text": "format table agreement, subtable preference order"},
  {"name": "gidsort", "path": "sfntlint/c10.go", "serves_properties": ["C10"], "kind_free_text": "old/new glyph-id sort dataflow, closure pairing, paired append, source-font read-only (E10)"},
  {"name": "dictpair", "path": "sfntlint/c13.go", "serves_properties": ["C13"], "kind_free_text": "CFF DICT operator type/default agreement (E9-DICT)"},
